@@ -376,6 +376,19 @@ class Check:
                                found_input=False)
             elif not lean.ok:
                 self.notes.append("proof obligations broken: " + "; ".join(lean.failed))
+        # schema hygiene: `exhaustive` is a boolean; a description of what was enumerated goes to `exhaustive_scope`
+        if "exhaustive" in cov and not isinstance(cov["exhaustive"], bool):
+            cov["exhaustive_scope"] = cov["exhaustive"]
+            cov["exhaustive"] = False
+        for k in ("evaluations", "distinct_nontrivial", "programs", "disagreements_checked", "states", "transitions",
+                  "traces_validated_against_impl"):
+            if k in cov and not isinstance(cov[k], int):
+                try:
+                    cov[k] = int(cov[k])
+                except Exception:
+                    cov[k + "_note"] = cov.pop(k)
+        if "samples" in cov and not isinstance(cov["samples"], list):
+            cov["samples"] = [cov["samples"]]
         cov.setdefault("samples", self.samples or ["(none)"])
         cov["counters"] = self.counters
         if self.notes:
